@@ -79,27 +79,32 @@ func verif_harness_C15_static_concurrent() {
 	verif_assert(u0+u1 == int64(T) && u0-u1 <= 1 && u1-u0 <= 1, "C15.static.even-rotation-under-concurrency")
 }
 
-// C15 (2b) — the same in mid-stream: the root first draws 0..3 targets (so the
-// counter is anywhere before, at or after its wrap-around point), two
+// C15 (2b) — the same in mid-stream: the root first draws p = 0..3 targets (so
+// the counter is anywhere before, at or after its wrap-around point), two
 // goroutines draw concurrently, and after both finished the root draws once
 // more. Strict rotation over all p+3 draws: every interleaving hands out
 // exactly the targets (0..p+2) mod 2, so the per-target counts are determined.
 //
-//verif:harness engine=gobmc unwind=16 replay=none autoshared=1 queries=cut,bad,race,deadlock bmctimeout=600
+//verif:harness engine=gobmc param.p=0..3 unwind=16 replay=none autoshared=1 queries=cut,bad,race,deadlock bmctimeout=600
 func verif_harness_C15_static_midstream() {
 	tr := NewStaticTargeter(Target{Method: "GET", URL: "u0"}, Target{Method: "GET", URL: "u1"})
+	p := verif_param("p")
+	early := [2]int64{} // the root's own draws before any goroutine exists
+	for j := 0; j < p; j++ {
+		var t Target
+		verif_assert(tr(&t) == nil, "C15.static.no-error")
+		if t.URL == "u0" {
+			early[0]++
+		} else {
+			early[1]++
+		}
+	}
 	count := func(t *Target) {
 		if t.URL == "u0" {
 			verif_ghost_add("used0", 1)
 		} else {
 			verif_ghost_add("used1", 1)
 		}
-	}
-	p := verif_choose("earlier_draws", 4)
-	for j := 0; j < p; j++ {
-		var t Target
-		verif_assert(tr(&t) == nil, "C15.static.no-error")
-		count(&t)
 	}
 	done := make(chan struct{})
 	verif_chan_name(done, "done")
@@ -117,7 +122,7 @@ func verif_harness_C15_static_midstream() {
 	verif_assert(tr(&t) == nil, "C15.static.no-error")
 	count(&t)
 	n := int64(p + 3)
-	u0, u1 := verif_ghost_add("used0", 0), verif_ghost_add("used1", 0)
+	u0, u1 := verif_ghost_add("used0", 0)+early[0], verif_ghost_add("used1", 0)+early[1]
 	verif_assert(u0 == (n+1)/2 && u1 == n/2, "C15.static.strict-rotation-across-the-wrap-around")
 }
 
@@ -215,7 +220,7 @@ func verif_harness_C15_http_targeter_race() {
 //
 //verif:harness engine=gobmc unwind=32 replay=none queries=cut,race bmctimeout=900 maxevents=200
 func verif_harness_C15_http_targeter_header_race() {
-	lines := []string{"GET http://a/", "X-H: 1"}
+	lines := []string{"GET http://a/", "X-H: 1", "GET http://b/"} // a second target, so that a caller still advances the cursor while the first consumes its header
 	pos := 0
 	verif_shared(&pos, "scanner_position")
 	cur := ""
